@@ -47,7 +47,7 @@ Proof. induction a; cbn; auto. rewrite list_eqb_refl. auto. Qed.
 
 (* ------------------------------------------------------------------ space *)
 Definition kids (L : level) (q : list Z * env) : list (list Z * env) :=
-  map (fun ce => (fst q ++ [fst ce], snd ce)) (ref_elems (l_src L) (snd q)).
+  map (fun ce => (fst q ++ [fst ce], snd ce)) (ref_elems L (snd q)).
 
 Lemma space_S : forall L lv m pe, space (L :: lv) (S m) pe = space lv m (flat_map (kids L) pe).
 Proof. reflexivity. Qed.
